@@ -48,6 +48,8 @@ structure RCase where
   cfgAssets : List String := []
   pcfg : Config := ⟨[], [], [], [], [], []⟩
   grids : List (String × List (List Cell)) := []      -- (sheet name, rows reversed), newest first
+  ini : Option (List Ini.Section) := none           -- sections newest first, items newest first
+  useIni : Bool := false
 
 def optInt (s : String) : Option Int := if s == "-" then none else s.toInt?
 def parseMethod : String → Method
@@ -107,9 +109,10 @@ def runO (c : RCase) : List String :=
   withComps c fun cs =>
     match openPositions holderOf cs with
     | .error e => [s!"ERR gen {e}"]
-    | .ok (a, e, _) =>
+    | .ok (a, e, hs) =>
       a.map (fun r => s!"OA {r.row} {r.asset} {r.holder} {sr r.bal} {sr r.unit} {sr r.cost} {sr r.weight}") ++
-      e.map (fun r => s!"OE {r.row} {r.asset} {r.holder} {r.acct} {sr r.bal} {sr r.unit} {sr r.cost} {sr r.weight}")
+      e.map (fun r => s!"OE {r.row} {r.asset} {r.holder} {r.acct} {sr r.bal} {sr r.unit} {sr r.cost} {sr r.weight}") ++
+      (totalRows "A" hs a.length ++ totalRows "E" hs e.length).map (fun (t, r, h) => s!"OT {t} {r} {h}")
 
 def runJ (c : RCase) (sortedYears : Bool) : List String :=
   withComps c fun cs =>
@@ -134,16 +137,18 @@ def runCli (c : RCase) (script method lang pfx only plugin : String) : List Stri
   let o : Cli.Options := { script, method := opt method, lang := opt lang, fromD := c.fromDay, toD := c.toDay, allowNeg := c.allowNeg,
                            only := opt only, pluginFlag := plugin == "1", pfx := if pfx == "-" then "" else pfx, cfgSched := c.cfgSched.reverse }
   let sheets : List Cli.AssetIn := c.assets.reverse.map fun a => ⟨a.name, a.ins.reverse, a.outs.reverse, a.intras.reverse⟩
-  let out := if c.grids.isEmpty then Cli.run o acctName holderOf c.cfgAssets.reverse sheets
+  let out := if c.useIni then Cli.runIni o (c.ini.map fun secs => secs.reverse.map fun s => { s with items := s.items.reverse }) (c.grids.reverse.map fun g => (g.1, g.2.reverse))
+             else if c.grids.isEmpty then Cli.run o acctName holderOf c.cfgAssets.reverse sheets
              else Cli.runCells o c.pcfg (c.grids.reverse.map fun g => (g.1, g.2.reverse))
   [s!"EXIT {out.exit} {out.stage.replace " " "_"}", s!"LEGEND {out.legendMethod.replace " " "_"}"] ++
   out.files.foldl (fun acc (name, rep) =>
     acc ++ [s!"FILE {name}"] ++ (match rep with
       | .full rows => rows.map showRow
       | .tax rows sheets => rows.map showTRow ++ [s!"SHEETS {",".intercalate (sheets.map (·.replace " " "_"))}"]
-      | .openPos a e =>
+      | .openPos a e ts =>
         a.map (fun r => s!"OA {r.row} {r.asset} {r.holder} {sr r.bal} {sr r.unit} {sr r.cost} {sr r.weight}") ++
-        e.map (fun r => s!"OE {r.row} {r.asset} {r.holder} {r.acct} {sr r.bal} {sr r.unit} {sr r.cost} {sr r.weight}")
+        e.map (fun r => s!"OE {r.row} {r.asset} {r.holder} {r.acct} {sr r.bal} {sr r.unit} {sr r.cost} {sr r.weight}") ++
+        ts.map (fun (t, r, h) => s!"OT {t} {r} {h}")
       | .jp shs => showJ shs)) []
 
 def updHead (c : RCase) (f : AssetIn → AssetIn) : RCase :=
@@ -188,6 +193,10 @@ partial def loop (h : IO.FS.Stream) (c : RCase) : IO Unit := do
   | ["C", "in", f, col] => loop h { c with pcfg := { c.pcfg with inCols := c.pcfg.inCols ++ [(f, col.toNat!)] } }
   | ["C", "out", f, col] => loop h { c with pcfg := { c.pcfg with outCols := c.pcfg.outCols ++ [(f, col.toNat!)] } }
   | ["C", "intra", f, col] => loop h { c with pcfg := { c.pcfg with intraCols := c.pcfg.intraCols ++ [(f, col.toNat!)] } }
+  | ["ININONE"] => loop h { c with useIni := true, ini := none }
+  | ["INIEMPTY"] => loop h { c with useIni := true, ini := some [] }
+  | ["INISEC", n] => loop h { c with useIni := true, ini := some ({ name := unhex (n.drop 1).toString, items := [] } :: c.ini.getD []) }
+  | ["INIKV", k, v] => loop h { c with ini := match c.ini with | some (s :: t) => some ({ s with items := (unhex (k.drop 1).toString, unhex (v.drop 1).toString) :: s.items } :: t) | x => x }
   | ["S", a] => loop h { c with grids := (unhex a, []) :: c.grids }
   | "R" :: cells => loop h { c with grids := match c.grids with | [] => [] | (n, rs) :: t => (n, cells.map parseCell :: rs) :: t }
   | ["CSCHED", y, m] => loop h { c with cfgSched := (y.toInt!, m) :: c.cfgSched }
